@@ -260,6 +260,14 @@ def run_def(task):
             if gc != wc:
                 expl = [dv for dv in odevs if repr(norm(readback_conds(conds, [dv]))) == gc] or \
                        ([odevs] if repr(norm(readback_conds(conds, odevs))) == gc else [])
+                if not expl:
+                    # two deviations on the same definition (a comma in a value of a filter that also has an address
+                    # condition): their interplay is not predicted value by value; known only if both guards hold
+                    flat = repr(conds)
+                    both = [dv for dv in odevs if (dv == "Dev_CommaSplitsValue" and "," in "".join(x for c in conds for x in _strings(c)))
+                            or (dv == "Dev_AddressNotReadBack" and any(c[0] == "address" for c in conds))]
+                    if len(both) >= 2:
+                        expl = [both]
                 probs.append({"prop": "C19", "what": "%s set: get_filter_conditions %s, supplied %s" % (stage, gc, wc), "text": text,
                               "expl": expl[0] if expl else None})
             if ga != wa:
@@ -271,6 +279,15 @@ def run_def(task):
             if probs:
                 break
     return probs, info
+
+
+def _strings(x):
+    if isinstance(x, str):
+        yield x
+    elif isinstance(x, (list, tuple)):
+        for y in x:
+            for z in _strings(y):
+                yield z
 
 
 def _split(v):
@@ -290,13 +307,28 @@ def readback_conds(conds, devs=()):
     """the tuple shapes get_filter_conditions documents (tests/docstrings): header (name, tag, value...) flattened.
     devs: open deviations to apply (the prediction of what the implementation returns instead)"""
     out = []
+    leak = False          # Dev_AddressNotReadBack: the `not' in front of an unreported address test negates the next reported one
     for c in conds:
         if c[0] in ("true", "false"):
             continue                         # not reported (documented: only header/size/exists/body/envelope/currentdate)
         if c[0] == "address":
             if "Dev_AddressNotReadBack" not in devs:
                 out.append(c)
+            elif c[1].startswith(":not"):
+                leak = True
             continue
+        if leak:
+            leak = False
+            if c[0] in ("exists",):
+                c = ("notexists",) + tuple(c[1:])
+            elif c[0] == "envelope" and not c[1].startswith(":not"):
+                c = (c[0], ":not" + c[1][1:]) + tuple(c[2:])
+            elif c[0] == "body" and not c[2].startswith(":not"):
+                c = tuple(c[:2]) + (":not" + c[2][1:],) + tuple(c[3:])
+            elif c[0] == "currentdate" and not c[3].startswith(":not"):
+                c = tuple(c[:3]) + (":not" + c[3][1:],) + tuple(c[4:])
+            elif c[0] not in ("size", "notexists", "envelope", "body", "currentdate") and isinstance(c[1], str) and not c[1].startswith(":not"):
+                c = (c[0], ":not" + c[1][1:]) + tuple(c[2:])
         if c[0] in ("size", "exists", "notexists", "body", "currentdate", "envelope"):
             out.append(c)
             continue
